@@ -1653,6 +1653,16 @@ fn tag_of(base: usize) -> String {
 }
 
 pub fn replay(payload: &Value) -> i32 {
+	if payload["kind"] == "double-answer" {
+		let root = scratch_root();
+		let c: crate::props::c12_double::Case = serde_json::from_value(payload["case"].clone()).unwrap();
+		let (_, _, _, _) = (0, 0, 0, 0);
+		let based = format!("{}/c12e-replay-base", root);
+		let _ = based;
+		let (n, hist, problems, mach) = crate::props::c12_double::run_all(&root);
+		println!("double-answer sweep ({} cases, requested {:?}): {:?} problems {:?} machinery {:?}", n, c, hist, problems.iter().map(|p| &p.0).collect::<Vec<_>>(), mach);
+		return if problems.is_empty() { 0 } else { 1 };
+	}
 	std::env::set_var("GWV_SHOW_PANICS", "1");
 	let root = scratch_root();
 	let thorough = tier() == Tier::Thorough;
@@ -1942,6 +1952,17 @@ pub fn run(args: &[String]) -> i32 {
 
 	if let Some(e) = cd_mach {
 		return rep.finish(Some(e));
+	}
+	// (e) one initiation answered twice
+	if want("e") {
+		let (n, hist_e, problems, mach) = crate::props::c12_double::run_all(&root);
+		rep.cov("e_double_answer", json!({"cases": n, "outcomes": hist_e}));
+		for (k, w, payload) in problems {
+			rep.add_finding(Finding { key: k, what: w, replay: payload });
+		}
+		if let Some(e) = mach {
+			return rep.finish(Some(e));
+		}
 	}
 	// vacuity guards
 	let mut vac = None;
